@@ -62,6 +62,13 @@ JudgeOp(r, line) ==
   IN
   /\ st' = post
   /\ need' = need1
+  \* C14 history variable: the stack of saved cursor states as the SPECIFICATION knows it (pushed at
+  \* DECSC from the state at that moment, popped at DECRC, untouched by everything else) - an
+  \* operation that tampers with the saved states in between is then visible at the restore
+  /\ rs' = [rs EXCEPT !.hs = IF ~preOK THEN post.saves
+                             ELSE IF ev.op = "decsc" THEN Append(rs.hs, Savepoint(st))
+                             ELSE IF ev.op = "decrc" THEN (IF rs.hs = <<>> THEN <<>> ELSE SubSeq(rs.hs, 1, Len(rs.hs) - 1))
+                             ELSE rs.hs]
   /\ cnt' = Inc(cnt, judged \cup {"lines", "ops"}
                      \cup (IF On("C09") THEN {"C09"} ELSE {}) \cup (IF On("C01") THEN {"C01"} ELSE {})
                      \cup (IF On("C17") /\ preOK /\ postOK THEN {"C17"} ELSE {})
@@ -81,8 +88,9 @@ JudgeOp(r, line) ==
         => Report("illformed", "C09", line, r, {"display-rows"}, [rows |-> Len(disp), L |-> post.L])
   \* the step predicates of the selected properties
   /\ \A id \in judged :
-        LET bad == Bad(id, st, ev, post, disp) IN
-        bad # {} => Report("mismatch", id, line, r, bad, Describe(Apply(st, ev), post))
+        LET pre0 == IF id = "C14" /\ ev.op = "decrc" THEN [st EXCEPT !.saves = rs.hs] ELSE st
+            bad == Bad(id, pre0, ev, post, disp) IN
+        bad # {} => Report("mismatch", id, line, r, bad, Describe(Apply(pre0, ev), post))
   \* C17
   /\ (On("C17") /\ preOK /\ postOK /\ ~r.panic /\ Bad_C17(need, st, need1, post) # {})
         => Report("mismatch", "C17", line, r, Bad_C17(need, st, need1, post),
@@ -90,7 +98,7 @@ JudgeOp(r, line) ==
 
 -----------------------------------------------------------------------------
 (* feed lines: what the listener received during one feed() call             *)
-RsInit(utf8) == [rec |-> Ground, pend |-> <<>>, utf8 |-> utf8, start |-> TRUE, flushAlt |-> FALSE, skip |-> FALSE, desync |-> FALSE]
+RsInit(utf8) == [rec |-> Ground, pend |-> <<>>, utf8 |-> utf8, start |-> TRUE, flushAlt |-> FALSE, skip |-> FALSE, desync |-> FALSE, hs |-> <<>>]
 PlainEv(e) == [op |-> e.op, p |-> e.p, s |-> e.s, pr |-> e.pr]
 TextOf(evs) == FoldLeft(LAMBDA acc, e : IF e.op = "draw" THEN acc \o e.s ELSE acc, <<>>, evs)
 Only(evs, ops) == SelectSeq(evs, LAMBDA e : e.op \in ops)
@@ -177,14 +185,14 @@ Step ==
      CASE r.k = "new" ->
             /\ st' = IF r.scr THEN NormState(r.post, NoScreen) ELSE NoScreen
             /\ need' = {}
-            /\ rs' = RsInit(r.utf8)
+            /\ rs' = [RsInit(r.utf8) EXCEPT !.hs = IF r.scr THEN r.post.saves ELSE <<>>]
             /\ UNCHANGED grp
             /\ cnt' = Inc(cnt, {"lines"})
             /\ (On("C09") /\ r.scr /\ ~WellFormed(NormState(r.post, NoScreen), r.post.cols))
                  => PrintT(<<"MISMATCH", ToJson([kind |-> "illformed", prop |-> "C09", line |-> l + 1,
                                                  op |-> "new", p |-> <<r.L, r.C>>, pr |-> FALSE, src |-> "api",
                                                  bad |-> <<"new">>, info |-> <<>>])>>)
-       [] r.k = "op" -> JudgeOp(r, l + 1) /\ UNCHANGED <<rs, grp>>
+       [] r.k = "op" -> JudgeOp(r, l + 1) /\ UNCHANGED grp
        [] r.k = "feed" -> JudgeFeed(r, l + 1) /\ UNCHANGED grp
        [] r.k = "end" -> JudgeEnd(r, l + 1)
        [] r.k = "sync" ->
@@ -195,7 +203,7 @@ Step ==
                 same == r.panics = 0 /\ Shape(post) /\ DiffFields(want, post, NoDirty) = {} IN
             /\ st' = post
             /\ need' = {}
-            /\ rs' = [rs EXCEPT !.skip = ~same]
+            /\ rs' = [rs EXCEPT !.skip = ~same, !.hs = want.saves]
             /\ UNCHANGED grp
             /\ cnt' = Inc(cnt, {"lines", "vectors"} \cup (IF same THEN {} ELSE {"setup_mismatch"}))
        [] r.k = "utf8" ->
